@@ -20,6 +20,10 @@ CUR = None        # the active Explorer (symbolic mode) or None
 
 class PathAbort(BaseException):
     """Current path is infeasible or was cut by an assumption."""
+    def __init__(self, *a):
+        super().__init__(*a)
+        if CUR is not None:
+            CUR.path_dead = True
 
 
 class UnsupportedSymbolic(BaseException):
@@ -30,7 +34,7 @@ class ReplayEnd(BaseException):
     """Replay reached the point where the recorded symbolic path stopped."""
 
 
-class PathTimeout(Exception):
+class PathTimeout(BaseException):
     """The code under analysis did not return within the per-path wall-clock limit (a hang)."""
 
 
@@ -816,6 +820,7 @@ class Explorer:
         self.inputs = {}            # name -> proxy (registered inputs)
         self.notes = {}             # free-form per-path notes included in samples
         self.path_failed = False
+        self.path_dead = False      # a steering exception is unwinding the stack (finally blocks still run)
         self.refiners = []
         self.law_stubs = []
         self.sqrt_cache = {}
@@ -1205,7 +1210,7 @@ class Explorer:
                 except UnsupportedSymbolic as e:
                     self.inconclusive.append(f'unsupported symbolic operation: {e}')
                     self.stats.paths += 1
-                except Exception as e:    # noqa -- escaped the harness: report with a model
+                except (PathTimeout, Exception) as e:    # noqa -- escaped the harness: report with a model
                     self.stats.paths += 1
                     import traceback
                     tb = traceback.format_exc(limit=-6)
@@ -1320,7 +1325,7 @@ class Concrete:
                                              f'KeyError: {e}\n' + traceback.format_exc(limit=-6)))
         except PathAbort:
             self.failures.append(Failure('replay-left-the-assumptions', 'harness', self.given))
-        except Exception as e:   # noqa
+        except (PathTimeout, Exception) as e:   # noqa
             import traceback
             self.failures.append(Failure('no-unexpected-exception', 'exception', self.given,
                                          f'{type(e).__name__}: {e}\n' + traceback.format_exc(limit=-6)))
